@@ -53,10 +53,29 @@ func ruleTablePerConnection(p *Program, r *Result) {
 			r.undecided("R-CONFINED", key, p.Pos(L.Pos()), "no session lookup in the loop function")
 			continue
 		}
-		table := lookup.Common().Args[0]
+		table := canonObject(lookup.Common().Args[0])
 		ctor, ok := table.(*ssa.Call)
 		good := ok && ctor.Common().StaticCallee() != nil && ctor.Parent() == L && !blockReachFromSelf(ctor.Block())
 		why := "the table is not the result of a constructor call made in the loop function before the loop"
+		// the constructor folded into the loop function: a heap allocation of the table made before the loop
+		if al, isAlloc := table.(*ssa.Alloc); isAlloc && al.Heap && al.Parent() == L && !blockReachFromSelf(al.Block()) {
+			good = true
+			for _, rf := range refsOf(table) {
+				switch x := rf.(type) {
+				case ssa.CallInstruction, *ssa.DebugRef, *ssa.FieldAddr:
+				case *ssa.Store:
+					if x.Val == table && !storedInPrivateLocalField(x, table) {
+						good, why = false, "the table is stored somewhere other than a field of a local value that stays in the loop function"
+					}
+				default:
+					good, why = false, fmt.Sprintf("the table escapes the loop function through %T", rf)
+				}
+			}
+			r.cond(good, "R-CONFINED", key, p.Pos(lookup.Pos()),
+				"the session table is allocated by the connection loop function for this connection and used only through its own methods: session ids of different connections never meet",
+				why)
+			continue
+		}
 		if good {
 			// the constructor returns a fresh allocation with a fresh map
 			f := ctor.Common().StaticCallee()
@@ -73,8 +92,14 @@ func ruleTablePerConnection(p *Program, r *Result) {
 			}
 			// the table value is only used as receiver/argument of calls within L (not stored, not sent)
 			for _, rf := range refsOf(table) {
-				switch rf.(type) {
+				switch x := rf.(type) {
 				case ssa.CallInstruction, *ssa.DebugRef:
+				case *ssa.Store:
+					// kept in a field of a local struct of the loop function that itself goes nowhere: every
+					// read of that field is again only a receiver/argument of calls
+					if !storedInPrivateLocalField(x, table) {
+						good, why = false, "the table is stored somewhere other than a field of a local value that stays in the loop function"
+					}
 				default:
 					good, why = false, fmt.Sprintf("the table escapes the loop function through %T", rf)
 				}
@@ -169,6 +194,19 @@ func ruleConnectionStateReadOnly(p *Program, r *Result) {
 				continue // inside the request loop: per request
 			}
 			for _, in := range b.Instrs {
+				// a constructor folded into this function: the allocation itself
+				if al, isAlloc := in.(*ssa.Alloc); isAlloc && al.Heap {
+					if n, ok := al.Type().(*types.Pointer).Elem().(*types.Named); ok && n.Obj().Pkg() != nil && n.Obj().Pkg().Path() == modPath {
+						if _, isStruct := n.Underlying().(*types.Struct); isStruct && p.viewOf != nil {
+							if _, inView := p.viewOf[fn]; inView {
+								if o, known := p.viewOf[fn].origin[in]; known && o.Parent() != p.orig(fn) {
+									perConn[n] = fnKey(fn)
+								}
+							}
+						}
+					}
+					continue
+				}
 				call, ok := in.(*ssa.Call)
 				if !ok || call.Common().StaticCallee() == nil {
 					continue
@@ -235,4 +273,75 @@ func ruleConnectionStateReadOnly(p *Program, r *Result) {
 	if nStores == 0 {
 		r.ok("R-CONFINED", "connection-state", "-", true, "the per-connection objects (%s) have no field stored to outside their constructors: sessions of a connection share no mutable connection-level state", strings.Join(names, ", "))
 	}
+}
+
+// storedInPrivateLocalField: st puts v into a field of a local struct whose address is used for field access only,
+// and every value read back from that field is used as a call receiver/argument only.
+func storedInPrivateLocalField(st *ssa.Store, v ssa.Value) bool {
+	fa, ok := st.Addr.(*ssa.FieldAddr)
+	if !ok || st.Val != v {
+		return false
+	}
+	al, ok := fa.X.(*ssa.Alloc)
+	if !ok {
+		return false
+	}
+	return privateLocalField(al, fa.Field, st, 3)
+}
+
+// privateLocalField: the local struct al is used for field access only (or copied whole into another such local),
+// field #field is written by `only` alone, and what is read from it is used as a call receiver/argument only.
+func privateLocalField(al *ssa.Alloc, field int, only *ssa.Store, depth int) bool {
+	if depth == 0 {
+		return false
+	}
+	for _, rf := range refsOf(al) {
+		switch x := rf.(type) {
+		case *ssa.UnOp:
+			// copied whole (a value receiver): the copy must be as private
+			for _, r2 := range refsOf(x) {
+				switch y := r2.(type) {
+				case *ssa.Store:
+					dst, ok := y.Addr.(*ssa.Alloc)
+					if !ok || y.Val != ssa.Value(x) || !privateLocalField(dst, field, nil, depth-1) {
+						return false
+					}
+				case *ssa.DebugRef:
+				default:
+					return false
+				}
+			}
+		case *ssa.Store:
+			if x.Addr != ssa.Value(al) {
+				return false
+			}
+		case *ssa.FieldAddr:
+			if x.Field != field {
+				continue
+			}
+			for _, r2 := range refsOf(x) {
+				switch y := r2.(type) {
+				case *ssa.Store:
+					if y != only {
+						return false
+					}
+				case *ssa.UnOp:
+					for _, r3 := range refsOf(y) {
+						switch r3.(type) {
+						case ssa.CallInstruction, *ssa.DebugRef:
+						default:
+							return false
+						}
+					}
+				case *ssa.DebugRef:
+				default:
+					return false
+				}
+			}
+		case *ssa.DebugRef:
+		default:
+			return false
+		}
+	}
+	return true
 }
